@@ -291,17 +291,6 @@ Proof.
   - injection Hy as -> ->. exfalso. apply Hn. apply in_map_iff. exists (k, x). split; [reflexivity|assumption].
   - apply IH; assumption.
 Qed.
-Lemma snd_functional {A B} (l : list (A * B)) x y k :
-  NoDup (map snd l) -> In (x, k) l -> In (y, k) l -> x = y.
-Proof.
-  induction l as [|[z k'] l IH]; intros Hnd Hx Hy; [destruct Hx|].
-  cbn [map snd] in Hnd. inversion Hnd as [|? ? Hn Hnd']; subst.
-  destruct Hx as [Hx|Hx]; destruct Hy as [Hy|Hy].
-  - congruence.
-  - injection Hx as -> ->. exfalso. apply Hn. apply in_map_iff. exists (y, k). split; [reflexivity|assumption].
-  - injection Hy as -> ->. exfalso. apply Hn. apply in_map_iff. exists (x, k). split; [reflexivity|assumption].
-  - apply IH; assumption.
-Qed.
 
 Lemma Forall2_NoDup {A B} (R : A -> B -> Prop) l1 l2 :
   (forall x x' y, R x y -> R x' y -> x = x') -> Forall2 R l1 l2 -> NoDup l1 -> NoDup l2.
@@ -518,6 +507,76 @@ Proof.
     assert (HFl : forall (A B : Type) (R : A -> B -> Prop) l1 l2, Forall2 R l1 l2 -> length l1 = length l2).
     { intros A B R l1 l2 HF. induction HF as [|x y l1 l2 _ _ IH]; cbn [length]; [reflexivity|]. rewrite IH. reflexivity. }
     unfold att_labels_are in H5, H6. apply HFl in H5, H6. congruence.
+Qed.
+
+
+(* set-level run of attack insertions, duplicates allowed *)
+Lemma fold_new_att_set pairs : forall s,
+  (forall p, In p pairs -> s_find str str_eqb s (fst p) <> None /\ s_find str str_eqb s (snd p) <> None) ->
+  let s' := fold_left (fun s o => fst (s_step str str_eqb s o)) (map mkop pairs) s in
+  live s' = live s /\
+  forall q, In q (rel s') <-> In q (rel s) \/ In q (map (idp s) pairs).
+Proof.
+  induction pairs as [|[a b] r IH]; intros s Hfind; cbn [map fold_left].
+  - split; [reflexivity|]. intros q. split; [auto|intros [H|[]]; exact H].
+  - destruct (Hfind (a, b) (or_introl eq_refl)) as [Ha Hb]. cbn [fst snd] in Ha, Hb.
+    cbn [mkop fst snd s_step].
+    destruct (s_find str str_eqb s a) as [x|] eqn:Ex; [|congruence].
+    destruct (s_find str str_eqb s b) as [y|] eqn:Ey; [|congruence].
+    assert (Hidp : idp s (a, b) = (x, y)).
+    { unfold idp, sid. cbn [fst snd]. rewrite Ex, Ey. reflexivity. }
+    rewrite Hidp.
+    assert (Hr : forall p, In p r -> s_find str str_eqb s (fst p) <> None /\ s_find str str_eqb s (snd p) <> None).
+    { intros p Hp. apply Hfind. right; exact Hp. }
+    destruct (s_has_att str s (x, y)) eqn:Ehas; cbn [fst].
+    + destruct (IH s Hr) as [H1 H2]. split; [exact H1|]. intros q. rewrite H2. cbn [In].
+      unfold s_has_att in Ehas. apply existsb_exists in Ehas. destruct Ehas as [q' [Hq' Hpq]].
+      apply (pair_eqb_eq (x, y) q') in Hpq. subst q'.
+      split; [tauto|]. intros [H|[H|H]]; [tauto|subst q; tauto|tauto].
+    + set (s' := {| next_id := next_id s; live := live s; rel := rel s ++ [(x, y)] |}).
+      assert (Hidp' : forall p, idp s' p = idp s p) by reflexivity.
+      destruct (IH s') as [H1 H2]; [exact Hr|]. split; [exact H1|]. intros q. rewrite H2.
+      cbn [rel s' In]. rewrite (map_ext _ _ Hidp'), in_app_iff. cbn [In]. tauto.
+Qed.
+
+(* the attack set of the framework the Aspartix reader returns, as label pairs: exactly the
+   declared attacks (duplicate declarations and duplicate attack lines allowed) *)
+Lemma apx_result_attacks decls atts :
+  (forall p, In p atts -> In (fst p) decls /\ In (snd p) decls) ->
+  NoDup (iter_attacks str (apx_result decls atts)) /\
+  forall la lb, has_att_lab (apx_result decls atts) la lb <-> In (la, lb) atts.
+Proof.
+  intros Hin.
+  set (f0 := fw_new_with_labels str str_eqb decls).
+  assert (Hinv0 : SInv f0) by apply (init_inv str str_eqb str_eqb_spec).
+  assert (Hinv : SInv (apx_result decls atts)).
+  { unfold apx_result. apply (run_inv str str_eqb str_eqb_spec), Hinv0. }
+  split; [exact (inv_ndatt str _ Hinv)|].
+  assert (Hlive0 : live (abs str f0) = numbered 0 (dedup str_eqb [] decls)).
+  { unfold abs. cbn [live]. unfold f0. apply init_iter_args. }
+  assert (Hlab0 : forall l, In l decls -> In l (map snd (live (abs str f0)))).
+  { intros l Hl. rewrite Hlive0, map_snd_numbered. apply dedup_In_iff. exact Hl. }
+  pose proof (run_refines str str_eqb str_eqb_spec (map mkop atts) f0 Hinv0) as Habs.
+  change (run_ops str str_eqb f0 (map mkop atts)) with (apx_result decls atts) in Habs.
+  destruct (fold_new_att_set atts (abs str f0)) as [Hl Hr].
+  { intros p Hp. destruct (Hin p Hp) as [Ha Hb]. split; apply s_find_some, Hlab0; assumption. }
+  rewrite <- Habs in Hl, Hr.
+  assert (Hfun : forall k x y, In (k, x) (live (abs str f0)) -> In (k, y) (live (abs str f0)) -> x = y).
+  { intros k x y. apply fst_functional. rewrite Hlive0, map_fst_numbered. apply seq_NoDup. }
+  intros la lb. unfold has_att_lab.
+  change (iter_args str (apx_result decls atts)) with (live (abs str (apx_result decls atts))).
+  change (iter_attacks str (apx_result decls atts)) with (rel (abs str (apx_result decls atts))).
+  rewrite Hl. split.
+  - intros [a [b [Ha [Hb Hab]]]]. apply Hr in Hab. destruct Hab as [[]|Hab].
+    apply in_map_iff in Hab. destruct Hab as [[pa pb] [Hp Hpin]].
+    unfold idp in Hp. cbn [fst snd] in Hp. injection Hp as <- <-.
+    destruct (Hin _ Hpin) as [Hpa Hpb]. cbn [fst snd] in Hpa, Hpb.
+    pose proof (sid_In _ _ (Hlab0 _ Hpa)) as H1. pose proof (sid_In _ _ (Hlab0 _ Hpb)) as H2.
+    rewrite (Hfun _ _ _ Ha H1), (Hfun _ _ _ Hb H2). exact Hpin.
+  - intros Hp. destruct (Hin _ Hp) as [Hpa Hpb]. cbn [fst snd] in Hpa, Hpb.
+    exists (sid (abs str f0) la), (sid (abs str f0) lb).
+    split; [apply sid_In, Hlab0, Hpa|]. split; [apply sid_In, Hlab0, Hpb|].
+    apply Hr. right. apply in_map_iff. exists (la, lb). split; [reflexivity|exact Hp].
 Qed.
 
 (* ------------------------------------------------------------------ the hypotheses are satisfiable *)
